@@ -953,6 +953,7 @@ func (t *Tokenizer) readBacktickIdentifier() (models.Token, error) {
 			return models.Token{
 				Type:  models.TokenTypeIdentifier, // Backtick identifiers are identifiers
 				Value: buf.String(),
+				Quote: '`', // ... and never keywords, however they are spelled
 			}, nil
 		}
 
